@@ -532,9 +532,184 @@ def live_shard(sh):
     return run
 
 
+KAEXP_ACTIONS = {
+    "garbage": b"\x00\xffnot http at all\r\n\r\n",
+    "bad-version": b"GET /kaexp-late HTTP/9.9\r\nHost: h\r\n\r\n",
+    "valid": b"GET /kaexp-late HTTP/1.1\r\nHost: h\r\n\r\n",
+    "half": b"GET /kaexp-late HTTP/1.1\r\nHo",
+    "fin": None,
+    "rst": None,
+}
+
+
+def kaexp_round(e4, srv, KA, plan):
+    """plan = [(start delay, offset, action)]: each entry is one client that is served a request, idles, and `KA + offset` seconds after
+    its response sends the action's bytes (or leaves); returns one record per client."""
+    import socket
+    import struct
+    import threading
+    import time
+    recs = []
+
+    def client(i, delay, off, action):
+        rec = {"i": i, "off": off, "action": action, "first": None, "sent_at": None, "after": b"", "closed": False, "err": None}
+        recs.append(rec)
+        time.sleep(delay)
+        try:
+            c = e4.connect(srv.addr, 5)
+        except OSError as e:
+            rec["err"] = repr(e)
+            return
+        try:
+            r1 = e4.request(srv.addr, raw=("GET /kaexp/%d HTTP/1.1\r\nHost: h\r\n\r\n" % i).encode(), sock=c, close=False, timeout=8)
+            t_resp = time.monotonic()
+            rec["first"] = r1["outcome"]
+            if r1["outcome"] != "ok" or b"connection: close" in r1["data"].lower():
+                rec["first"] = "not-kept-alive" if r1["outcome"] == "ok" else r1["outcome"]
+                return
+            while True:
+                left = t_resp + KA + off - time.monotonic()
+                if left <= 0:
+                    break
+                time.sleep(min(left, 0.2))
+            rec["sent_at"] = round(time.monotonic() - t_resp, 3)       # measured, not planned
+            data = KAEXP_ACTIONS[action]
+            if data is not None:
+                c.sendall(data)
+            elif action == "fin":
+                c.shutdown(socket.SHUT_WR)
+            else:
+                if isinstance(srv.addr, tuple):
+                    c.setsockopt(socket.SOL_SOCKET, socket.SO_LINGER, struct.pack("ii", 1, 0))
+                return
+            c.settimeout(0.5)
+            t0 = time.monotonic()
+            while time.monotonic() - t0 < 8:
+                try:
+                    d = c.recv(65536)
+                except socket.timeout:
+                    if action == "half" and time.monotonic() - t0 > KA + 2.5:
+                        break           # an unfinished request may be waited for (its handler thread owns the connection now)
+                    continue
+                except OSError:
+                    rec["closed"] = True
+                    break
+                if not d:
+                    rec["closed"] = True
+                    break
+                rec["after"] += d
+        except OSError as e:
+            rec["err"] = repr(e)
+        finally:
+            c.close()
+
+    ths = [threading.Thread(target=client, args=(i,) + tuple(p), daemon=True) for i, p in enumerate(plan)]
+    for t in ths:
+        t.start()
+    for t in ths:
+        t.join(40)
+    return recs
+
+
+def kaexp_shard(sh):
+    """Events on an idle keep-alive connection around the moment its keep-alive time runs out (live, one worker, otherwise quiet
+    server): several clients, staggered, are served one request each and then send garbage, a malformed or a valid or half a request,
+    or leave (FIN / RST) at keepalive + {-0.1 .. +1.0} s after their response - before the expiry, after it but before the worker's
+    loop has looked at the connection again, or after the worker closed it.  Judged: whatever the connection's fate, the same worker
+    process answers the next connection, nothing in the error log says the worker failed, and the only thing a client may receive
+    after garbage is one 4xx/5xx reply."""
+    import time
+    from vlib import e4_live as e4
+    run = Run(PROP, sh.get("tier", "quick"), sh["seed"], "fault_enumeration", RULE)
+    wc = sh["class"]
+    KA = 1
+    settings = {"keepalive": KA, "graceful_timeout": 2, "timeout": 30}
+    if wc == "gthread":
+        settings["threads"] = 2
+    plans = sh.get("plans")
+    if plans is None:
+        rng = rng_for(sh["seed"], "c05-kaexp", wc)
+        offs = [round(-0.1 + 0.05 * j, 2) for j in range(23)]           # -0.10 .. +1.00
+        plans = []
+        for r in range(sh.get("rounds", 2)):
+            rng.shuffle(offs)
+            stagger = rng.choice([0.13, 0.17, 0.23])
+            acts = sorted(KAEXP_ACTIONS)
+            plans.append([(round(i * stagger, 2), off, acts[(i + r + sh["seed"]) % len(acts)]) for i, off in enumerate(offs[:12])])
+            offs = offs[12:] + offs[:12]
+    established = False
+    for attempt in range(3):
+        srv = e4.Server("c05k", worker_class=wc, workers=1, settings=settings)
+        try:
+            srv.start()
+            w0 = srv.wait_workers(1, 25)
+            if not w0 or not srv.wait_listening(5):
+                continue
+            time.sleep(0.3)
+            hits = 0
+            witnessed = False
+            for idx, plan in enumerate(list(plans) + list(plans[:1])):
+                if witnessed or (idx >= len(plans) and hits):
+                    break           # (one extra round only when no event has hit the window so far)
+                recs = kaexp_round(e4, srv, KA, plan)
+                served = [r for r in recs if r["first"] == "ok" and r["sent_at"] is not None]
+                run.count("live_kaexp_rounds")
+                run.count("live_kaexp_events_sent", len(served))
+                for r in served:
+                    run.count("live_kaexp_action/" + r["action"])
+                    run.case(("live-kaexp", wc, r["action"], r["off"]))
+                    if r["sent_at"] > KA and r["after"][:9] == b"HTTP/1.1 ":
+                        # answered although the keep-alive time was over: the event reached the worker before it reaped the connection
+                        hits += 1
+                        run.count("live_kaexp_answered_after_keepalive_time")
+                    elif r["sent_at"] > KA:
+                        run.count("live_kaexp_closed_after_keepalive_time")
+                    else:
+                        run.count("live_kaexp_before_keepalive_time")
+                wit = {"kaexp": wc, "plans": [plan]}
+                pr = e4.request(srv.addr, "/pid", timeout=10)
+                ws = srv.worker_pids()
+                log = srv.error_log()
+                crashed = [ln for ln in log.splitlines() if "Exception in worker process" in ln or "exited with code" in ln]
+                what = ", ".join("%s at +%.2f s" % (r["action"], r["sent_at"]) for r in served)
+                if crashed or set(ws) != set(w0):
+                    tb = [ln.strip() for ln in log.splitlines() if "Error" in ln and "[ERROR]" not in ln][-2:]
+                    run.violation("live/worker-died-on-event-at-keepalive-expiry", "%s, keepalive %d s: clients were served and then, counted "
+                                  "from their response, did: %s.  Worker pids before %s, after %s; error log: %s %s" % (
+                                      wc, KA, what, w0, ws, crashed[:2], tb), wit)
+                    witnessed = True
+                elif pr["outcome"] != "ok":
+                    run.violation("live/server-does-not-serve-next-connection", "%s, keepalive %d s: after clients did (%s) the next "
+                                  "connection -> %s" % (wc, KA, what, pr["outcome"]), wit)
+                    witnessed = True
+                else:
+                    run.count("live_kaexp_liveness_probes")
+                for r in served:
+                    if r["action"] in ("garbage", "bad-version") and r["after"]:
+                        st = e4.status_of(r["after"])
+                        if not (st and 400 <= st < 600 and r["after"].count(b"HTTP/1.") == 1):
+                            run.violation("live/reply-to-garbage-on-idle-keepalive-connection", "%s: %s sent %.2f s after the response on "
+                                          "a keep-alive connection (keepalive %d s): the client received %r" % (
+                                              wc, r["action"], r["sent_at"], KA, r["after"][:120]), wit)
+                        elif b"connection: close" not in r["after"].lower():
+                            run.violation("live/error-reply-without-connection-close", "%s: %s sent %.2f s after the response on a keep-alive "
+                                          "connection: %r" % (wc, r["action"], r["sent_at"], r["after"][:160]), wit)
+            if witnessed or hits:
+                established = True
+                break
+        finally:
+            srv.cleanup()
+    if not established:
+        run.inconclusive_because("keep-alive expiry sweep (%s): in three attempts no late event was answered after the keep-alive time, "
+                                 "the window between expiry and reaping was never hit (or the server did not boot)" % wc)
+    return run
+
+
 def shard(sh):
     if sh.get("kind") == "tls":
         return tls_shard(sh)
+    if sh.get("kind") == "kaexp":
+        return kaexp_shard(sh)
     if sh.get("kind") == "live":
         return live_shard(sh)
     from vlib import e2_worker as e2
@@ -662,6 +837,9 @@ def main(tier, seed):
     shards += [{"kind": "random", "n": 800 if q else 15000, "sub": i, "seed": seed, "tier": tier} for i in range(10 if q else 32)]
     shards += [{"kind": "live", "class": c, "n": 150 if q else 1500, "seed": seed, "tier": tier}
                for c in ("sync", "gthread", "gevent", "eventlet")]
+    # events on idle keep-alive connections around the expiry of the keep-alive time (threaded worker: its loop reaps them)
+    shards += [{"kind": "kaexp", "class": c, "rounds": 2 if q else 6, "seed": seed, "tier": tier} for c in ["gthread"]]
+    run.require("live_kaexp_events_sent", "live_kaexp_answered_after_keepalive_time", "live_kaexp_liveness_probes")
     tls_classes = ["sync", "gthread", "gevent", "eventlet"]
     for i, c in enumerate(tls_classes if not q else ["sync", tls_classes[1 + seed % 3]]):
         for oc in (True, False):
@@ -684,6 +862,14 @@ def replay(path):
     from vlib import e2_worker as e2
     with open(path) as f:
         rec = json.load(f)
+    if "kaexp" in rec["case"]:
+        r = kaexp_shard({"kind": "kaexp", "class": rec["case"]["kaexp"], "plans": rec["case"]["plans"], "seed": 0})
+        for mech, s, _ in r.violations:
+            print("VIOLATION property=%s replay=%s\n  %s %s" % (PROP, path, mech, s))
+        print("reach:", r.reach)
+        if not r.violations:
+            print("no violation on replay")
+        return 1 if r.violations else 0
     run = Run(PROP, "quick", 0, "fault_enumeration", RULE)
     hs = {}
     try:
